@@ -12,9 +12,11 @@ Open Scope Z_scope.
    that is in the collection (nothing remains for removed datasets, subsets or groups, also for subsets handed over
    alone); every current subset of a given dataset has its layer (so: exactly one); where dc.remove detaches grouped
    subsets (fx = true, the C06 repair) every subset layer belongs to a live group. *)
-Theorem viewer_inv_reachable : forall (fx : bool) (ops : list op),
-  let st := fst (run_v ops (init_v fx) []) in
-  let given := snd (run_v ops (init_v fx) []) in
+Theorem viewer_inv_reachable : forall (fx : bool) (ops : list dop),
+  no_blocks ops = true ->
+  let r := run_d ops (init_v fx, None) [] in
+  let st := fst (fst r) in
+  let given := snd r in
   sls st = arts st /\ NoDup (arts st) /\ NoDup given /\
   (forall d, In d given -> In d (dc st)) /\
   (forall d, In (LData d) (arts st) <-> In d given) /\
@@ -23,6 +25,20 @@ Theorem viewer_inv_reachable : forall (fx : bool) (ops : list op),
   (fx = true -> forall s d g, In (LSub s d g) (arts st) -> In g (groups st)).
 Proof. exact Lemmas.viewer_inv_reachable. Qed.
 Print Assumptions viewer_inv_reachable.
+
+(* The statement above is about the block-aware run_d that run_case executes; its guard excludes histories in which the USER
+   opens a delay_callback(viewer.state, 'layers') block around viewer operations (not part of the property's quantifier).
+   FULL statement without the guard:  forall fx ops, snd (fst (run_d ops ...)) = None -> <the same conclusion>.
+   It is false of the faithful model of the unchanged code: inside such a block (1) remove_data d; add_data d leaves d given but
+   without a layer, (2) add_data d; remove_data d leaves an artist without a layer state. Both are reproduced on the code and
+   kept out of the generated blocks (ASSUMPTIONS); every other block shape is covered by correspondence + oracle only. *)
+Theorem viewer_blocks_refuted :
+  (exists ops, let r := run_d ops (init_v true, None) [] in
+     snd (fst r) = None /\ ~ (forall d, In (LData d) (arts (fst (fst r))) <-> In d (snd r))) /\
+  (exists ops, let r := run_d ops (init_v true, None) [] in
+     snd (fst r) = None /\ sls (fst (fst r)) <> arts (fst (fst r))).
+Proof. exact Lemmas.viewer_blocks_refuted. Qed.
+Print Assumptions viewer_blocks_refuted.
 
 (* After any history of picker operations (append / remove / set datasets, clear, filter flags, explicit selections),
    dataset mutations (add / remove / reorder / rename components), collection removals and hub delay blocks: the
